@@ -154,6 +154,8 @@ func runC08(c *core.Ctx) {
 
 func c08IdPRun(c *core.Ctx, layout []c08KD, runLen int) {
 	rnd := fx.NewRecReader(c.Rng.Int63())
+	rnd.MaxChunk = []int{0, 0, 0, 1, 7, 16}[c.Rng.Intn(6)] // short reads are within the io.Reader contract of a configured random source
+	c.Observe("random_source_read_sizes", fmt.Sprintf("max %d bytes per Read (0 = whole buffer)", rnd.MaxChunk))
 	xmlenc.RandReader = rnd
 	saml.RandReader = fx.NewRecReader(c.Rng.Int63())
 	w := so.NewIDPWorld()
